@@ -142,6 +142,12 @@ func allZero(b []byte) bool {
 // logScan scans the debug log lines written since the last call (installed by Sweep).
 var logScan func(what string, keys ...[]byte)
 
+// prevEnv is the very slice the previous successful wrap returned, prevEnvCopy what it held at that moment.
+var (
+	prevEnv, prevEnvCopy []byte
+	prevEnvVersion       int
+)
+
 // curDataKey is the data key of the envelope produced by the latest wrap (what the unwraps that follow obtain from KMS).
 var curDataKey []byte
 
@@ -209,6 +215,14 @@ func Sweep(r *ev.Run, prop string, maxRegions int, builds int) {
 							env, err := wk.EncryptKey(context.Background(), sk)
 							r.Eval(1)
 							r.Count("wraps", 1)
+							// an envelope handed out by an earlier wrap belongs to its caller: a later wrap must not write to it
+							if prevEnv != nil && !bytes.Equal(prevEnv, prevEnvCopy) {
+								report(fmt.Sprintf("envelope-changed-by-a-later-wrap:v%d", prevEnvVersion), "the envelope returned by an earlier EncryptKey of the v%d plug-in was modified in place by a later EncryptKey call (it no longer holds what was returned)", prevEnvVersion)
+								prevEnv = nil
+							}
+							if err == nil && len(env) > 0 {
+								prevEnv, prevEnvCopy, prevEnvVersion = env, append([]byte(nil), env...), wv
+							}
 							calls := cloud.Calls()
 							defer0 := func(dk []byte) { logScan(fmt.Sprintf("v%d wrap", wv), skCopy, dk) }
 							canGenerate := len(failGen) < len(regions)
